@@ -301,7 +301,7 @@ class C06(Check):
                     if any(results.get(r) != root for r in range(size)):
                         bad(f"ranks-disagree-on-broadcast-result:{tag}", dict(ctx))
                     continue
-                if root != ref:
+                if not c06_drivers.same_result(root, ref):
                     detail = dict(ctx)
                     if driver == "create" and isinstance(root, dict):
                         got_n = sum(v[0] for v in root["per_patch"].values())
@@ -317,8 +317,8 @@ class C06(Check):
                         sub_tag = "no-result"
                     bad(f"root-differs-from-single-process:{tag}:{sub_tag}", detail)
                 if driver in ("reopen", "reopen_compute_meta", "hist", "io", "create"):
-                    if any(results.get(r) != root for r in range(size)):
-                        which = [r for r in range(size) if results.get(r) != root]
+                    if any(not c06_drivers.same_result(results.get(r), root) for r in range(size)):
+                        which = [r for r in range(size) if not c06_drivers.same_result(results.get(r), root)]
                         bad(f"ranks-disagree-on-broadcast-result:{tag}", dict(ctx, ranks=which))
                 if new_sched and msgs:
                     counters["distinct_schedules"] = counters.get("distinct_schedules", 0) + 1
